@@ -51,16 +51,52 @@ def reference_programs(ctx, rnd, n):
     return progs
 
 
-def seq_scenario(rnd, sid, progs, variants):
+HOWS_OBJ = ['add', 'store', 'new_from']
+HOWS_BYTES = ['read_stream', 'descread', 'libread']
+
+
+def use_step(rnd, progs, special):
+    """build a definition, then drive one of the OTHER users of the build lock / global context with it: the read-back
+    done by add / store / new_from (a definition the reader can or cannot re-create), or the reader on bytes / files
+    that are valid, truncated anywhere, name an unknown class, carry an impossible rate or duplicate control names"""
+    x = rnd.random()
+    if x < 0.3:
+        i = rnd.randrange(len(progs))
+        return dict(k='use', prog=progs[i], key='k%d' % i, how=rnd.choice(HOWS_OBJ), variant='valid')
+    if x < 0.5:
+        return dict(k='use', prog=special['unknown'], key='unknown', how=rnd.choice(HOWS_OBJ), variant='unknown')
+    how = rnd.choice(HOWS_BYTES)
+    if x < 0.6:
+        return dict(k='use', prog=special['dup'], key='dup', how=how, variant='dupname')
+    i = rnd.randrange(len(progs))
+    return dict(k='use', prog=progs[i], key='k%d' % i, how=how,
+                variant=rnd.choice(['valid', 'trunc', 'trunc', 'trunc', 'badclass', 'badrate']), cut=rnd.randint(0, 999))
+
+
+def special_programs():
+    unknown = sp.Prog('unk', [sp.Ctl('freq', 1, 440)],
+                      [sp.Gen('VerifUnknownUGen', 2, [sp.Pm(1)]), sp.Gen('SinOsc', 2, [sp.R(1), sp.C(0)]),
+                       sp.Gen('Out', 2, [sp.C(0), sp.R(2)], 0)])
+    dup = sp.Prog('dup', [sp.Ctl('ka', 1, 1), sp.Ctl('kb', 1, 2)],
+                  [sp.Gen('SinOsc', 2, [sp.Pm(1), sp.Pm(2)]), sp.Gen('Out', 2, [sp.C(0), sp.R(1)], 0)])
+    return dict(unknown=unknown, dup=dup)
+
+
+def seq_scenario(rnd, sid, progs, variants, special=None):
     steps = []
     for _ in range(rnd.randint(8, 20)):
         x = rnd.random()
         i = rnd.randrange(len(progs))
-        if x < 0.5:
+        if x < 0.4:
             steps.append(dict(k='build', prog=progs[i], key='k%d' % i))
-        elif x < 0.8:
+        elif x < 0.6:
             kind = rnd.choice(['func', 'check', 'write'])
             steps.append(dict(k='build', prog=variants[i][kind], key='k%d!%s' % (i, kind)))
+            steps.append(dict(k='probe'))
+            steps.append(dict(k='build', prog=progs[i], key='k%d' % i))
+        elif x < 0.86 and special is not None:
+            # the other entry points, each followed by the residue probe and by a reference build
+            steps.append(use_step(rnd, progs, special))
             steps.append(dict(k='probe'))
             steps.append(dict(k='build', prog=progs[i], key='k%d' % i))
         elif x < 0.9:
@@ -73,7 +109,7 @@ def seq_scenario(rnd, sid, progs, variants):
     return dict(id=sid, kind='seq', steps=steps)
 
 
-def thread_scenario(rnd, sid, progs, variants, nthreads):
+def thread_scenario(rnd, sid, progs, variants, nthreads, special=None):
     ths = []
     for t in range(nthreads):
         i = rnd.randrange(len(progs))
@@ -84,7 +120,10 @@ def thread_scenario(rnd, sid, progs, variants, nthreads):
             kind = rnd.choice(['func', 'check'])
             first = dict(k='build', prog=variants[i][kind], key='k%d!%s' % (i, kind))
         j = rnd.randrange(len(progs))
-        ths.append([first, dict(k='probe'), dict(k='build', prog=progs[j], key='k%d' % j), dict(k='probe')])
+        second = dict(k='build', prog=progs[j], key='k%d' % j)
+        if special is not None and rnd.random() < 0.4:
+            second = use_step(rnd, progs, special)      # a read-back competing for the lock with the other threads
+        ths.append([first, dict(k='probe'), second, dict(k='probe')])
     sync = []
     for t in range(nthreads - 1):
         n = len(ths[t][0]['prog']['ins'])
@@ -97,7 +136,8 @@ def run(ctx):
     # 1. protocol model; the two crippled protocols must break the invariants (anti-vacuity)
     r = ctx.model_check('Build', 'Build_thorough.cfg' if thorough else 'Build.cfg', require_cover=ACTIONS, timeout=1500)
     ctx.expect_ok(r, 'Build protocol')
-    for cfg, inv in (('Build_noclear.cfg', 'NoResidue'), ('Build_nolock.cfg', 'Deterministic')):
+    for cfg, inv in (('Build_noclear.cfg', 'NoResidue'), ('Build_noreadclear.cfg', 'NoResidue'),
+                     ('Build_nolock.cfg', 'Deterministic')):
         r = ctx.model_check('Build', cfg, timeout=600, label='crippled protocol must violate ' + inv)
         if inv not in r.violated:
             raise MachineryError('%s: expected violation of %s, got %s' % (cfg, inv, r.violated))
@@ -106,20 +146,32 @@ def run(ctx):
     nref = 24 if thorough else 10
     progs = reference_programs(ctx, rnd, nref)
     variants = [fail_variants(p, rnd) for p in progs]
+    special = special_programs()
     sid = 0
     scen = []
     for _ in range(400 if thorough else 96):
-        scen.append(seq_scenario(rnd, sid, progs, variants))
+        scen.append(seq_scenario(rnd, sid, progs, variants, special))
         sid += 1
     for _ in range(240 if thorough else 80):
-        scen.append(thread_scenario(rnd, sid, progs, variants, rnd.choice([2, 2, 3])))
+        scen.append(thread_scenario(rnd, sid, progs, variants, rnd.choice([2, 2, 3]), special))
         sid += 1
     per = max(1, (len(scen) + 15) // 16)
     inputs = [dict(scenarios=scen[i:i + per]) for i in range(0, len(scen), per)]
     # 2. the same reference programs in fresh processes: hash seeds, RT mode, and the GC stress
     allseq = dict(id=0, kind='seq', steps=[dict(k='build', prog=p, key='k%d' % i) for i, p in enumerate(progs)]
                   + [dict(k='build', prog=variants[i][kind], key='k%d!%s' % (i, kind))
-                     for i in range(len(progs)) for kind in ('func', 'check', 'write')] + [dict(k='probe')])
+                     for i in range(len(progs)) for kind in ('func', 'check', 'write')] + [dict(k='probe')]
+                  + [st for how in HOWS_OBJ for st in (dict(k='use', prog=progs[0], key='k0', how=how, variant='valid'),
+                                                       dict(k='probe'),
+                                                       dict(k='use', prog=special['unknown'], key='unknown', how=how,
+                                                            variant='unknown'), dict(k='probe'),
+                                                       dict(k='build', prog=progs[0], key='k0'))]
+                  + [st for how in HOWS_BYTES for var, cut in (('valid', 0), ('trunc', 3), ('trunc', 400), ('trunc', 990),
+                                                               ('badclass', 0), ('badrate', 0))
+                     for st in (dict(k='use', prog=progs[0], key='k0', how=how, variant=var, cut=cut), dict(k='probe'),
+                                dict(k='build', prog=progs[0], key='k0'))]
+                  + [st for how in HOWS_BYTES for st in (dict(k='use', prog=special['dup'], key='dup', how=how,
+                                                              variant='dupname'), dict(k='probe'))])
     outs = ctx.run_drivers(DRIVER, inputs, mode='nrt')
     extra = []
     for hs in (['0', '1', '2', '3', '12345', 'random', 'random'] if thorough else ['1', '2', 'random']):
@@ -180,7 +232,7 @@ def run(ctx):
             if hot:
                 nover += 1
                 ctx.nontrivial(t['ev'])
-        elif t['kind'] == 'seq' and any(e['e'] == 'exit' and e['raised'] for e in t['ev']):
+        elif t['kind'] == 'seq' and any((e['e'] in ('exit', 'read')) and e['raised'] for e in t['ev']):
             ctx.nontrivial(t['ev'])
         elif t['kind'] in ('det', 'gc'):
             ctx.nontrivial(t['ev'])
